@@ -140,6 +140,7 @@ def drive (st : St) : List String → St × String
       let (_, out) := step H codec (other st.pol) true st.u op
       (st, showU (other st.pol == .concurrent && isDigestRead op) out)
   | ["diverge", _, _] => (st, "skip")   -- a one-sided member fault: judged by the oracle
+  | "rfault" :: _ => (st, "skip")       -- one member refuses every call, the other holds the content: impl-only, judged by the oracle
   | "fault" :: _ => (st, "skip")        -- a fault injected into ONE member's n-th call: impl-only, judged by the oracle
   | ["snap"] => (st, if obs st.u.m0 == obs st.u.m1 then "equal" else "differ")
   | ["merge", k, e0, e1] =>
